@@ -365,6 +365,26 @@ def parser_outputs(ctx, n):
             if probs:
                 p = probs[0]
                 ctx.violation(f"parse-output:{p[0]}:{d or 'base'}:{p[1]}", {"sql": s, "dialect": d or "base", "problem": p}, {"sql": s, "dialect": d})
+    # literal zoo: every literal kind (with its options, e.g. UESCAPE) in every dialect that reads it
+    n = 0
+    for lit in stmts.EXOTIC_LITERALS:
+        for d in dialects:
+            n += 1
+            if n % ctx.nshards != ctx.shard:
+                continue
+            s = f"SELECT {lit} AS x, f({lit}) FROM t WHERE y = {lit}"
+            try:
+                t = sqlglot.parse_one(s, read=d)
+                hash(t)
+            except Exception:
+                continue
+            ctx.count("evaluations")
+            ctx.count("parser_outputs_checked")
+            ctx.count("literal_zoo_outputs_checked")
+            probs = inspect(t)
+            if probs:
+                p = probs[0]
+                ctx.violation(f"parse-output:{p[0]}:{d or 'base'}:{p[1]}", {"sql": s, "dialect": d or "base", "problem": p}, {"sql": s, "dialect": d})
     if ctx.shard == 0:
         for key, d, s in PARSE_PROBES:
             ctx.count("probes")
